@@ -267,7 +267,7 @@ def jobs(tier):
         if not boundary:
             cap -= 18
         js.append(Job('resume[d=%d,l=%d-%d,v=%d,%s,out=%d,%s]' % (d, lmin, lmax, v, 'b' if boundary else 'nb', out_len, 'dill' if persist else 'mem'), resume,
-                      {'d': d, 'lmin': lmin, 'lmax': lmax, 'version': v, 'boundary': boundary, 'out_len': out_len, 'cap': cap, 'pool': 2 if q else 3, 'persist': persist},
+                      {'d': d, 'lmin': lmin, 'lmax': lmax, 'version': v, 'boundary': boundary, 'out_len': out_len, 'cap': cap, 'pool': 2 if (q or persist) else 3, 'persist': persist},
                       validate=(5 if q else 2), budget_s=(600 if q else 3000)))
     for (d, lmin, lmax, v, boundary, out_len, cap) in ([(2, 1, 2, 6, True, 1, 0), (2, 1, 2, 6, False, 2, 0)] if q else [(2, 1, 2, 6, True, 1, 0), (2, 1, 2, 6, False, 2, 0), (2, 1, 2, 3, True, 2, 0), (2, 1, 3, 6, True, 1, 0), (3, 1, 2, 6, True, 1, 0)]):
         js.append(Job('resume-tol[d=%d,l=%d-%d,v=%d,%s,out=%d,cap=%d]' % (d, lmin, lmax, v, 'b' if boundary else 'nb', out_len, cap), resume_tol,
@@ -275,8 +275,8 @@ def jobs(tier):
                       validate=(5 if q else 2), budget_s=(600 if q else 3000)))
     es_cfgs = [(2, 1, 2, 0, 1, False, 1, 45, False), (2, 1, 2, 0, 1, False, 2, 45, True), (2, 1, 2, 1, 2, False, 1, 45, False), (2, 1, 2, 0, 1, True, 1, 26, False)]
     if not q:
-        es_cfgs += [(2, 1, 2, 0, 1, False, 1, 60, False), (2, 1, 2, 0, 1, False, 2, 60, True), (2, 1, 2, 1, 2, False, 1, 60, False), (2, 1, 2, 0, 1, True, 1, 36, False)]
-        es_cfgs += [(2, 1, 2, 2, 1, False, 2, 60, True), (2, 1, 2, 0, 2, False, 1, 60, False), (2, 1, 2, 0, 1, True, 2, 36, True)]
+        es_cfgs += [(2, 1, 2, 0, 1, False, 1, 54, False), (2, 1, 2, 0, 1, False, 2, 54, True), (2, 1, 2, 1, 2, False, 1, 54, False), (2, 1, 2, 0, 1, True, 1, 30, False)]
+        es_cfgs += [(2, 1, 2, 2, 1, False, 2, 45, True), (2, 1, 2, 0, 2, False, 1, 45, False), (2, 1, 2, 0, 1, True, 2, 26, True)]
     for (d, lmin, lmax, v, nrbe, auto, out_len, cap, persist) in es_cfgs:
         js.append(Job('resume-es[d=%d,l=%d-%d,v=%d,nrbe=%d%s,out=%d,cap=%d,%s]' % (d, lmin, lmax, v, nrbe, ',auto' if auto else '', out_len, cap, 'dill' if persist else 'mem'), resume_es,
                       {'d': d, 'lmin': lmin, 'lmax': lmax, 'version': v, 'nrbe': nrbe, 'auto': auto, 'out_len': out_len, 'cap': cap, 'pool': 1 if (q and auto) else 2, 'persist': persist},
@@ -284,12 +284,12 @@ def jobs(tier):
     for (v, boundary) in ([(6, True)] if q else [(6, True), (3, True), (6, False)]):
         cap = (27 if q else 33) - (0 if boundary else 18)
         js.append(Job('resume-reeval[d=2,l=1-2,v=%d,%s]' % (v, 'b' if boundary else 'nb'), resume,
-                      {'d': 2, 'lmin': 1, 'lmax': 2, 'version': v, 'boundary': boundary, 'out_len': 1, 'cap': cap, 'pool': 2 if q else 3, 'persist': False, 'reevaluate': True},
+                      {'d': 2, 'lmin': 1, 'lmax': 2, 'version': v, 'boundary': boundary, 'out_len': 1, 'cap': cap, 'pool': 2, 'persist': False, 'reevaluate': True},
                       validate=(5 if q else 2), budget_s=(600 if q else 3000)))
     for (v, boundary, reb) in ([(6, True, False)] if q else [(6, True, False), (6, True, True), (3, False, False)]):
         cap = (27 if q else 33) - (0 if boundary else 18)
         js.append(Job('resume-container[d=2,l=1-2,v=%d,%s,%s]' % (v, 'b' if boundary else 'nb', 'rebal' if reb else 'norebal'), resume,
-                      {'d': 2, 'lmin': 1, 'lmax': 2, 'version': v, 'boundary': boundary, 'out_len': 1, 'cap': cap, 'pool': 2 if q else 3, 'persist': False, 'via': 'container'},
+                      {'d': 2, 'lmin': 1, 'lmax': 2, 'version': v, 'boundary': boundary, 'out_len': 1, 'cap': cap, 'pool': 2, 'persist': False, 'via': 'container'},
                       validate=(5 if q else 2), budget_s=(600 if q else 3000)))
     js.append(Job('resume-container-es[d=2,l=1-2,v=0,nrbe=1,out=1,cap=%d]' % (34 if q else 45), resume_es,
                   {'d': 2, 'lmin': 1, 'lmax': 2, 'version': 0, 'nrbe': 1, 'auto': False, 'out_len': 1, 'cap': 34 if q else 45, 'pool': 2, 'persist': False, 'via': 'container'},
